@@ -130,10 +130,14 @@ func (f Float) MarshalJSON() ([]byte, error) {
 
 	// When decimal place is missing, add it. This only happens
 	// when the number is 0.
-	if num[1] != '.' {
-		num = append(num[0:3], num[1:]...)
-		num[1] = '.'
-		num[2] = '0'
+	// position of the first digit, after an optional minus sign
+	p := 0
+	if num[0] == '-' {
+		p = 1
+	}
+	if num[p+1] != '.' {
+		// always include a fractional part
+		num = append(num[:p+1], append([]byte(".0"), num[p+1:]...)...)
 	}
 
 	// Split into two parts
